@@ -14,6 +14,22 @@ for pid, P in PROPS.items():
         for leg in P["tiers"][t]:
             if "harness" not in leg or leg.get("no_warm"):
                 continue
+            if leg["kind"] not in ("detsched", "cmd", "tsan"):
+                # other leg kinds build through their own runner module (bin/leg_<kind>.py: build(leg, ctx))
+                try:
+                    import importlib
+                    m = importlib.import_module("leg_" + leg["kind"])
+                    key = (leg["kind"], leg["harness"], tuple(leg.get("cxxflags", ())), leg.get("dbg", False))
+                    if key in seen:
+                        continue
+                    seen.add(key)
+                    b, log = m.build(leg, dict(VERIF=vbuild.VERIF, vbuild=vbuild))
+                    print(pid, leg["kind"], leg["harness"], "ok" if b else "FAILED")
+                    if not b and not leg.get("optional"):
+                        print(log[-3000:]); bad += 1
+                except Exception as e:
+                    print(pid, leg["kind"], leg["harness"], "warm-up skipped:", e)
+                continue
             key = (leg["flavour"], leg["harness"], tuple(leg.get("cxxflags", ())))
             if key in seen:
                 continue
